@@ -113,13 +113,13 @@ pub fn hist_cfg(id: &str, thorough: bool) -> Option<HistCfg> {
         "C08" => HistCfg {
             id: "C08",
             on: vec!["C08"],
-            mix: Mix { lowlevel: 3, resolve: 3, unstage: 2, stagert: 2, snapshot: 2, ..base },
+            mix: Mix { lowlevel: 3, resolve: 3, unstage: 2, stagert: 2, snapshot: 2, faultycommit: 2, ..base },
             max_len: len(60, 120),
             n_min: 2,
             n_max: 3,
             with_fin: true,
             nontrivial: |k| c(k, "commits_with_staging_in_conflict") > 0 || c(k, "refresh_with_held_back_blocks") > 0 || (c(k, "resolves") > 0 && c(k, "unstages") > 0),
-            rule: "history with all operation kinds incl. low-level object calls under a watchdog; every getter is called after every step; non-trivial = a commit with staged changes while something is in conflict, or a refresh with held-back blocks, or resolve + unstage in one history",
+            rule: "history with all operation kinds incl. low-level object calls and commits during which one storage write fails, under a watchdog; every getter is called after every step; non-trivial = a commit with staged changes while something is in conflict, or a refresh with held-back blocks, or resolve + unstage in one history",
         },
         "C11" => HistCfg {
             id: "C11",
@@ -135,7 +135,7 @@ pub fn hist_cfg(id: &str, thorough: bool) -> Option<HistCfg> {
         "C12" => HistCfg {
             id: "C12",
             on: vec!["C12"],
-            mix: Mix { snapshot: 4, commit: 7, meldrefresh: 7, meld: 3, refresh: 3, reload: 3, lowlevel: 1, update: 10, ..base },
+            mix: Mix { snapshot: 4, commit: 7, meldrefresh: 7, meld: 3, refresh: 3, reload: 3, lowlevel: 1, update: 10, faultycommit: 1, ..base },
             max_len: len(60, 120),
             n_min: 2,
             n_max: 3,
@@ -168,13 +168,13 @@ pub fn hist_cfg(id: &str, thorough: bool) -> Option<HistCfg> {
         "C15" => HistCfg {
             id: "C15",
             on: vec!["C15"],
-            mix: Mix { unstage: 5, stagert: 6, resolve: 4, lowlevel: 3, refresh: 2, reload: 2, timetravel: 2, update: 10, ..base },
+            mix: Mix { faultycommit: 2, unstage: 5, stagert: 6, resolve: 4, lowlevel: 3, refresh: 2, reload: 2, timetravel: 2, update: 10, ..base },
             max_len: len(60, 120),
             n_min: 2,
             n_max: 3,
             with_fin: false,
             nontrivial: |k| c(k, "c15_rich_stage") > 0 || c(k, "c15_stage_with_marker") > 0,
-            rule: "history with unstage and export/unstage/replay round trips, refresh/reload/reload_until attempted with staged changes; non-trivial = a discarded or replayed stage holding at least three of: revision chain >=2, creation, deletion, resolution marker (or any marker)",
+            rule: "history with unstage and export/unstage/replay round trips, refresh/reload/reload_until attempted with staged changes, commits during which one storage write fails (the changes must stay staged); non-trivial = a discarded or replayed stage holding at least three of: revision chain >=2, creation, deletion, resolution marker (or any marker)",
         },
         "C19" => HistCfg {
             id: "C19",
@@ -208,6 +208,8 @@ pub fn fin_plan(n_max: u8) -> BoxedStrategy<FinPlan> {
         timetravel: 0,
         lowlevel: 0,
         mergecommit: 0,
+        churn: 0,
+        faultycommit: 0,
         rich: false,
         rich_info: false,
     };
